@@ -99,6 +99,13 @@ func boundedScopes() []scope {
 	return []scope{{2, 3, 4}, {3, 2, 3}, {4, 1, 3}, {3, 3, 2}, {4, 2, 2}}
 }
 
+// twoMutexPrograms: contention on two mutex instances at once (lower case = the
+// second mutex), explored with the pre-emption bound of the 4-goroutine scope.
+func twoMutexPrograms() [][]string {
+	return [][]string{{"L", "L", "l", "l"}, {"L", "L", "l"}, {"L", "l"}, {"L", "T", "l", "l"}, {"L", "L", "l", "t"}, {"LL", "L", "l"}, {"Ll", "lL"}, {"Ll", "L", "l"}, {"T", "l"}, {"Tt", "l", "L"},
+		{"L", "L", "h", "l"}, {"L", "L", "h", "l", "l"}, {"LL", "L", "h", "l"}, {"L", "T", "h", "l"}, {"H", "L", "l", "l"}, {"L", "L", "L", "h", "l"}}
+}
+
 const prefixDepth = 6
 
 // enumerate runs the scopes; work items are (program, choice prefix) pairs
@@ -130,6 +137,15 @@ func enumerate(t *testing.T, scopes []scope, label string, skip func([]string) b
 			}
 			idx[key] = len(jobs)
 			jobs = append(jobs, job{prog, sc.preempt})
+		}
+	}
+	if label == "bounded" {
+		pre := 3
+		if evid.Thorough() {
+			pre = 5
+		}
+		for _, prog := range twoMutexPrograms() {
+			jobs = append(jobs, job{prog, pre})
 		}
 	}
 	item := 0
